@@ -412,4 +412,52 @@ end generic2
 /-- NaN flag of an entry as the kernels test it (`isnan`) -/
 def nanFlag {β : Type} (o : Option β) : Nat := match o with | some _ => 0 | none => 1
 
+/-! ### list input (round 4): `calc_rdm_unbalanced` on a list of datasets
+
+As coded, the list branch calls the function itself on every dataset with the caller's arguments
+passed through and stacks the rows (`concat`); nothing computed for one dataset is read while the
+next one is processed (derived leaves `listCarried = 0`, `listPassthrough = 1`). -/
+
+/-- the rows of the result for a list of datasets (each already coded as a `Cfg`) -/
+def unbList {α : Type} [Add α] [Sub α] [Mul α] [Div α] [Neg α] [Zero α] [One α] [NatCast α]
+    [LT α] [DecidableLT α] [LE α] [DecidableLE α] [Max α] [Min α]
+    (cs : List (Cfg α)) : List (List (Option α)) :=
+  if listCarried = 0 ∧ listPassthrough = 1 then cs.map unbRdm else []
+
+/-- a loop over a list that threads a state from one element to the next — the shape a
+    "remember the previous dataset's coding" optimisation has (the tree has no such state) -/
+def threaded {σ δ ρ : Type} (step : σ → δ → ρ × σ) : σ → List δ → List ρ
+  | _, [] => []
+  | s, d :: ds => (step s d).1 :: threaded step (step s d).2 ds
+
+/-- reuse the predecessor's result when `key` says nothing has changed, else recompute -/
+def cachedStep {δ κ ρ : Type} [DecidableEq κ] (key : δ → κ) (code : δ → ρ) :
+    Option (κ × ρ) → δ → ρ × Option (κ × ρ)
+  | some (k, r), d => if key d = k then (r, some (k, r)) else (code d, some (key d, code d))
+  | none, d => (code d, some (key d, code d))
+
+/-- what the Python layer reads of a dataset to code its design: the condition label and the fold
+    label of every observation (`none`: no fold descriptor after the `index` fallback) -/
+structure Design where
+  labels : List Nat
+  folds : Option (List Nat)
+deriving DecidableEq, Repr
+
+/-- the integer coding handed to `calc`: conditions in order of first appearance, condition
+    code and fold code per observation (only equality of fold codes matters), crossval flag -/
+structure Coding where
+  uniq : List Nat
+  desc : List Nat
+  cv : List Nat
+  crossval : Bool
+deriving DecidableEq, Repr
+
+def codeDesign (d : Design) : Coding :=
+  { uniq := firstAppearance d.labels
+    desc := codes d.labels
+    cv := match d.folds with
+      | some f => codes f
+      | none => List.range d.labels.length
+    crossval := d.folds.isSome }
+
 end Rsa.Unb
